@@ -80,6 +80,23 @@ def main():
     grab("bloomKMin", fl, r"if k < (\d+) \{\s*k = \d+;")
     grab("bloomKMax", fl, r"else if k > (\d+) \{\s*k = \d+;")
     grab("bloomMinBits", fl, r"if filter_bits < (\d+) \{")
+    # width of the integer type in which the number of filter bits is computed (fix D19: u64; before: u32)
+    ww = re.search(r"let adj_filter_bits = filter\.len\(\) as u(\d+) \* 8;", fl) or re.search(r"let adj_filter_bits = \(filter\.len\(\) \* 8\) as u(\d+);", fl)
+    rw = re.search(r"let bits = \(filter\.len\(\) - 1\) as u(\d+) \* 8;", fl)
+    wuse = re.search(r"let bitpos = \(h as u(\d+) % adj_filter_bits\) as usize;", fl)
+    ruse = re.search(r"let bitpos = \(h as u(\d+) % bits\) as usize;", fl)
+    if ww and rw:
+        widths = [int(ww.group(1)), int(rw.group(1))]
+        # the remainder must be taken in the same width (otherwise the expression would not even type-check
+        # for u64 counts); the old code took `h % bits` in u32
+        for u in (wuse, ruse):
+            if u:
+                widths.append(int(u.group(1)))
+            else:
+                widths.append(32)
+        found["bloomBitsWidth"] = min(widths)
+    else:
+        missing.append("bloomBitsWidth")
     grab("bloomName", fl, r'impl FilterPolicy for BloomPolicy \{\s*fn name\(&self\) -> &\'static str \{\s*"([^"]+)"', str)
     grab("noFilterName", fl, r'impl FilterPolicy for NoFilterPolicy \{\s*fn name\(&self\) -> &\'static str \{\s*"([^"]+)"', str)
 
@@ -119,7 +136,7 @@ def main():
     for k in ["footerLength", "fullFooterLength", "tableBlockCompressLen", "tableBlockCksumLen", "maskDelta",
               "maskShr", "maskShl", "unmaskShr", "unmaskShl", "filterBaseLog2", "bloomSeed", "bloomM", "bloomR",
               "bloomMidShift", "bloomDeltaShr", "bloomDeltaShl", "bloomKNum", "bloomKMin", "bloomKMax",
-              "bloomMinBits", "compressionNone", "compressionSnappy", "defaultBlockSize",
+              "bloomMinBits", "bloomBitsWidth", "compressionNone", "compressionSnappy", "defaultBlockSize",
               "defaultRestartInterval", "defaultBitsPerKey"]:
         if k in found:
             L.append(f"def {k} : Nat := {found[k]}")
